@@ -177,3 +177,5 @@ def check(ctx, rep):
     unwrap_sites(ctx, rep, 'C03e')
     definition_pairing(ctx, rep, 'C03f')
     C10.dispatch_parity(ctx, rep, 'C03h')
+    from .common import memo_rule
+    memo_rule(ctx, rep, 'C03i', ('peptacular.mass_calc', 'peptacular.chem.chem_calc', 'peptacular.chem.chem_util'))
